@@ -1,7 +1,8 @@
 from . import COMMON_TB, NOTE
 
 PROP = {
-    "modules": [],
+    "modules": ["Proofs.RepEq", "Proofs.RepEqOps", "Proofs.RepEqProg", "Proofs.RepEqEval", "Proofs.RepEqRender",
+                "Proofs.RepEqStd", "Proofs.RepEqCmp", "Proofs.RepEqFilters", "Proofs.RepEqSort"],
     "streams": [{"name": "reps"}],
     "rule": "reps: a logical environment (nil, bool, Go int, float64, string, []any, map[string]any; numbers at the boundaries of "
             "every integer width) and a template of independent statements from a restricted grammar whose uses of every variable "
@@ -18,21 +19,45 @@ PROP = {
     "assumptions": ["integers of every width are compared with integers, floats of either width with floats: an int is not replaced by a float",
                     "`size` takes any value (array length / rune count / 0) and is not a string filter: []byte is not used there",
                     "uniq distinguishes by Go interface equality, so arrays under uniq get one representation for all elements",
+                    "json, inspect and type print the Go representation (their purpose) and are not generated",
                     "arrays nested in arrays are not printed in Go syntax (join of nested arrays) with drops inside",
                     "[]uint8 is []byte in Go and is not used as a typed integer slice"],
 }
 
 TEXT = {
-    "text": ('Theorems over the Go-representation value type: a drop behaves as the value it yields for lookup, truth, index, '
-              'printing and iteration (drop_*), a pointer as its pointee (ptr_unwrap_*, nilptr_unwrap), typed slices and fixed '
-              'arrays as generic slices for index, properties, loops and printing, typed string-keyed maps as generic maps, '
-              'MapSlice lookup and size as a map, []byte prints as its text, integers of every width print and test alike (with '
-              'C09 equal_num / less_num for comparison). Tie: the `reps` stream renders every template with every Go '
-              'representation of one logical environment on the model and on the real engine and requires all representations to '
-              'render identically on the real engine.'),
+    "text": ('Whole-template congruence over the Go-representation value type. RepEq d a b = equality of the normal forms '
+              'GoVal.norm d (typed slices and fixed arrays are generic slices, typed maps generic maps with the same key type, at '
+              'every depth; with d = true a drop inside a container is the value it yields); bindings and expression results are '
+              'compared through unwrap (drops of every depth resolved, pointers followed, nil pointer = nil). '
+              'run_rep_independent: for EVERY comparison/filter layer and output layer that respect the equivalence '
+              '(PrimsRespect, OutRespect), every configuration, file system, include depth and template source, rendering against '
+              'two environments with pointwise equivalent bindings gives the same RunResult (mutual induction over the compiled '
+              'tree on the two runs in lock step: rel_renderNode; eval_rel for expressions; assign/capture/loop/forloop/cycle/'
+              'include state threading); run_rep_independent_upto_unmodelled is the same up to the boundary of the model. '
+              'Standard configuration (d = false): stdOut_respects (printing), opEq/opLt/opContains_prep_vrel and '
+              'equal_prep_repEq (comparisons), filterRespects_std / filterRespects_std_upto (every standard filter except those that '
+              'observe the Go representation - uniq, and the value/debugging filters json, inspect, type; '
+              'filterRespects_of_scalar: any filter whose parameters are all bool/int/float64/string/time, whatever its body; sort '
+              'and sort_natural exactly on at most 12 elements (congruence of the insertion-sort model insertionSortM: '
+              'sortWith_rel_short, sortNaturalWith_rel_short) and through List.map_mergeSort up to their unmodelled tie order '
+              'beyond) give '
+              'run_std_rep_independent_partial / run_std_rep_independent_without_repr_filters: on the standard engine with any set of '
+              'registered filters that excludes uniq, json, inspect and type every template renders to agreeing results (equal, or one run is outside the '
+              'model) for environments that differ in typed vs generic slices, fixed arrays, typed maps at any depth and in '
+              'drops/pointers around a binding. Forced restrictions are recorded as evaluated counterexamples in '
+              'Proofs/C18.lean (uniq sees nested element types; type prints the Go type; json/inspect marshal the Go value: '
+              '[]uint8 as base64, map[any]any rejected; fmt.Sprint shows drops inside maps and under string filters; a '
+              'drop yielding a drop inside an array under values.Equal; only Go int indexes, bounds a range and sets '
+              'limit/offset/cols; a fixed-array needle against a fixed-array MapSlice key). The per-construct theorems '
+              '(drop_*, ptr_unwrap_*, typed_*/array_*, mapslice_*, bytes_print, int_width_*) remain. Tie: the `reps` stream renders '
+              'every template with every Go representation of one logical environment on the model and on the real engine and '
+              'requires all representations to render identically on the real engine.'),
     "design_ref": 'DESIGN.md 6 C18',
-    "note": NOTE + ('Stated per construct rather than as one whole-template theorem (`run` respects representation equivalence): '
-              'partial in that sense.'),
-    "technique": ('Lean 4 proof (case analysis on the value representation) + model/implementation correspondence + metamorphic '
+    "note": NOTE + ('The whole-template theorem is parametric in the value layer; for the standard layer it is proved for the '
+              'relation without drops nested in containers (d = false), up to unmodelled results, and without the filters uniq, json, '
+              'inspect, type (which observe the Go representation and do not respect the equivalence: counterexamples in Proofs/C18.lean). Numeric width, []byte-as-string and MapSlice-as-map are covered by the '
+              'per-construct theorems and the reps stream only.'),
+    "technique": ('Lean 4 proof (normal form of representations, two-run logical relation over the interaction trees, mutual '
+              'induction over the compiled template; case analysis on the value representation) + model/implementation correspondence + metamorphic '
               'oracle over Go representations'),
 }
